@@ -37,6 +37,8 @@ def gen_cases(seed, tier):
                 i += 1
         for j, kind in enumerate(KINDS):
             cases.append({"cls": "lfp", "kind": kind, "seed": seed * 1000 + i + j, "_w": 3})
+            cases.append({"cls": "badpairs", "kind": kind, "k_filter": bool((rep + j) % 2), "seed": seed * 1000 + i + j, "_w": 2})
+            cases.append({"cls": "badpairs", "kind": kind, "k_filter": bool((rep + j + 1) % 2), "seed": seed * 1000 + i + j + 77, "_w": 2})
             cases.append({"cls": "outside", "kind": kind, "k_filter": bool((rep + j) % 2), "seed": seed * 1000 + i + j, "_w": 3,
                           "layout": ["top", "middle", "top-with-hole", "scattered", "bottom"][(rep + j) % 5]})
             cases.append({"cls": "outside", "kind": kind, "k_filter": bool((rep + j + 1) % 2), "seed": seed * 1000 + i + j + 50, "_w": 3,
@@ -152,6 +154,39 @@ def run_case(case):
             e3 = np.max(np.abs(out3 - out[labels != 3])) / np.max(np.abs(out))
             res.check(e3 <= 1e-9, "destripe:inside-differs", f"{label}: inside-brain channels differ from filtering them alone ({e3:.3g})")
             sigs.add((kind, kf, "outside"))
+        except Exception as e:
+            res.exception("destripe:exception", e, label)
+    elif cls == "badpairs":
+        # bad channels close to each other: each must be rebuilt from GOOD neighbours only, so the stripe is still removed on every inside channel
+        kind, kf = case["kind"], case["k_filter"]
+        h = GS.header(kind)
+        ns = 6000
+        x = GS.stripe(rng, ns, fs, h["sample_shift"], 600, 5000, 100e-6)
+        labels = np.zeros(384)
+        c0 = int(rng.integers(20, 340))
+        layout = str(rng.choice(["dead-noisy", "noisy-dead", "dead-dead", "noisy-gap-dead", "three"]))
+        bad = {"dead-noisy": [(c0, 1), (c0 + 2, 2)], "noisy-dead": [(c0, 2), (c0 + 1, 1)], "dead-dead": [(c0, 1), (c0 + 2, 1)],
+               "noisy-gap-dead": [(c0, 2), (c0 + 4, 1)], "three": [(c0, 1), (c0 + 1, 2), (c0 + 3, 1)]}[layout]
+        if rng.random() < 0.4:
+            labels[384 - int(rng.integers(1, 30)):] = 3
+        for c, lab in bad:
+            labels[c] = lab
+            if lab == 1:
+                x[c] = 1e-8 * rng.standard_normal(ns)
+            else:
+                x[c] = x[c] + 400e-6 * rng.standard_normal(ns)
+        sl = slice(ns // 6, ns - ns // 6)
+        label = f"{kind} {'k-filter' if kf else 'CAR'} bad channels {bad}"
+        try:
+            out = V.destripe(x.copy(), fs, h=h, neuropixel_version=1, k_filter=kf, channel_labels=labels.copy())
+            ref = GS.rms(hp(GS.stripe(np.random.default_rng(1), ns, fs, h["sample_shift"], 600, 5000, 100e-6), fs)[:, sl])
+            inside = np.flatnonzero(labels != 3)
+            per = np.array([GS.rms(out[c, sl]) for c in inside])
+            worst = GS.db(per.max(), ref)
+            res.measure("worst_stripe_attenuation_with_bad_channels_db", worst)
+            res.check(worst <= -40.0, "destripe:bad-channel-leaks", f"{label}: channel {inside[int(np.argmax(per))]} keeps {worst:.1f} dB of the stripe level after destriping "
+                      f"(repaired channels must be rebuilt from good neighbours only)", counter="stripe_attenuations")
+            sigs.add((kind, kf, layout))
         except Exception as e:
             res.exception("destripe:exception", e, label)
     elif cls == "groups":
